@@ -100,7 +100,7 @@ func ruleR29(c *Ctx) {
 			// obligation moves to every call site, where the argument must be memory of that call
 			if u.Lit == nil && u.Decl != nil {
 				if id := identOfVar(u, v, info); id != nil {
-					if pi := m.paramIndex(u, id); pi >= 0 {
+					if pi := m.paramIndex(u, id); pi >= 0 || pi == -2 {
 						if okAll, n := c.argFreshAtCalls(u, pi, 0); okAll && n > 0 {
 							return fmt.Sprintf("parameter %s: each of the %d call sites passes memory allocated by the calling query", v.Name(), n), ""
 						}
@@ -249,6 +249,15 @@ func (c *Ctx) viaCodecScratch(e ast.Expr) bool {
 
 // identOfVar finds the declaring identifier of a parameter variable.
 func identOfVar(u *FuncUnit, v *types.Var, info *types.Info) *ast.Ident {
+	if u.Decl != nil && u.Lit == nil && u.Decl.Recv != nil {
+		for _, f := range u.Decl.Recv.List {
+			for _, nm := range f.Names {
+				if info.Defs[nm] == v {
+					return nm
+				}
+			}
+		}
+	}
 	if u.Type == nil || u.Type.Params == nil {
 		return nil
 	}
